@@ -975,6 +975,12 @@ func ParseCIDR(cidr string) ([]*net.IPNet, error) {
 		if err != nil {
 			return nil, fmt.Errorf("invalid CIDR %q", cidr)
 		}
+		// An IPv4-mapped IPv6 CIDR denotes an IPv4 prefix: store it as one.
+		if ip4 := n.IP.To4(); ip4 != nil && len(n.Mask) == net.IPv6len {
+			if ones, _ := n.Mask.Size(); ones >= 96 {
+				n = &net.IPNet{IP: ip4, Mask: net.CIDRMask(ones-96, 32)}
+			}
+		}
 		return []*net.IPNet{n}, nil
 	}
 
